@@ -1331,6 +1331,24 @@ pub fn case_with(z: &Z, with_twin: bool) -> CaseOut {
             let reset_now = r.w.conns[r.c].app.ledger.borrow().reset.contains_key(&(e.id, true));
             let rs = r.w.conns[s].app.recv.get(&e.id);
             let stopped = rs.is_some_and(|st| matches!(st.terminal, Some("stopped") | Some("reset") | Some("closed-before-terminal")));
+            // a stream reset by the client is still announced to the server (RESET_STREAM is repeated until
+            // acknowledged, also when its first copy travelled in a 0-RTT packet that a Retry made void):
+            // the server application sees the stream and its end
+            if reset_now && !stopped && !rs.is_some_and(|st| st.terminal.is_some()) {
+                fails.push((
+                    if facts.retry { "c17/early-reset-not-delivered@after-retry".to_string() } else { "c17/early-reset-not-delivered".to_string() },
+                    format!(
+                        "the server accepted early data, both sides completed the handshake and the run settled; stream {} was opened before the handshake completed ({} bytes written) and reset by the client, but the server application {}",
+                        e.id,
+                        e.written,
+                        match rs {
+                            None => "never saw the stream".to_string(),
+                            Some(st) => format!("holds it without an end (received {:?})", st.got),
+                        }
+                    ),
+                ));
+                break;
+            }
             if reset_now || stopped {
                 continue;
             }
